@@ -24,8 +24,27 @@ type part struct {
 
 // parts lists, per property, the harness checks that decide it and the build
 // flavour each needs (schedule exploration runs under the race detector).
-var parts = map[string][]part{
-	"C03": {{"C03", false}},
+var parts = loadParts()
+
+func loadParts() map[string][]part {
+	m := map[string][]part{}
+	b, err := os.ReadFile(filepath.Join(verifRoot(), "checks.json"))
+	if err != nil {
+		return m
+	}
+	var raw map[string][]struct {
+		ID   string `json:"id"`
+		Race bool   `json:"race"`
+	}
+	if json.Unmarshal(b, &raw) != nil {
+		return m
+	}
+	for k, v := range raw {
+		for _, p := range v {
+			m[k] = append(m[k], part{p.ID, p.Race})
+		}
+	}
+	return m
 }
 
 type violation struct {
@@ -170,7 +189,7 @@ func check(args []string) int {
 	var rules []string
 	for _, p := range ps {
 		env := []string{"VERIF_DEADLINE=" + strconv.FormatInt(deadline.Unix(), 10)}
-		out, err := runCmd(bins[p.Race], budget+5*time.Minute, env, "check", p.ID, tier, strconv.Itoa(runtime.NumCPU()), strconv.FormatInt(seed, 10))
+		out, err := runCmd(bins[p.Race], budget+5*time.Minute, env, "check", p.ID, tier, strconv.Itoa(workers()), strconv.FormatInt(seed, 10))
 		if err != nil {
 			fmt.Fprintf(os.Stderr, "verif: INFRASTRUCTURE: harness %s failed: %v\n%s\n", p.ID, err, out)
 			return 2
@@ -303,6 +322,15 @@ func check(args []string) int {
 }
 
 var viols = map[int]part{}
+
+func workers() int {
+	if v := os.Getenv("VERIF_WORKERS"); v != "" {
+		if n, err := strconv.Atoi(v); err == nil && n > 0 {
+			return n
+		}
+	}
+	return runtime.NumCPU()
+}
 
 func samplesOrNote(s []any) []any {
 	if len(s) == 0 {
